@@ -5,6 +5,7 @@ On top of the tasks engine:
                                           down is WHICH values are combined and WHERE the result is stored)
   zip(xs, ys) of two sequences        -> pairs by position (the contract requires equal lengths)
   {x}                                  -> the singleton set
+  enumerate(zip(xs, ys))              -> (position, (x, y)) by position;   [x] * n -> the list of n copies of x
 """
 import ast
 import z3
@@ -26,6 +27,11 @@ class PyZip2(PyEnum):
 
 class KnobEngine(TasksEngine):
     def binop(self, op, a, b, cx, inplace=False, node=None):
+        if isinstance(op, ast.Mult) and isinstance(a, PySeq) and isinstance(b, PyInt) and z3.is_int_value(z3.simplify(a.n)) and z3.simplify(a.n).as_long() == 1 and not inplace:
+            # [x] * n : the list of n copies of x
+            arr = z3.K(IntS, a.at(0))
+            n = z3.If(b.t < 0, 0, b.t)
+            return PySeq(n, arr, a.elty, [n >= 0])
         if isinstance(a, PyObj) and isinstance(b, PyObj) and type(op) in _OPS and not inplace:
             return PyObj(_OPS[type(op)](a.t, b.t))
         return super().binop(op, a, b, cx, inplace=inplace, node=node)
@@ -39,7 +45,18 @@ class KnobEngine(TasksEngine):
         en.parts = parts
         return en
 
+    def builtin_enumerate(self, e, cx):
+        if len(e.args) != 1 or e.keywords:
+            raise Unsupported("enumerate form")
+        inner = self.iterate(self.eval(e.args[0], cx), cx)
+        en = PyZip2(inner.n, lambda j: j, TInt, axioms=inner.axioms)
+        en.parts = None
+        en.inner = inner
+        return en
+
     def loop_elem(self, it, k, s):
+        if isinstance(it, PyZip2) and it.parts is None:
+            return PyTuple([PyInt(k), self.loop_elem(it.inner, k, s)])
         if isinstance(it, PyZip2):
             return PyTuple([p.elem(k) for p in it.parts])
         return super().loop_elem(it, k, s)
